@@ -706,11 +706,15 @@ fn complex_is_parent_superselector(
 ///  [2, 4, 5]];
 /// ```
 pub(crate) fn paths<T: Clone>(choices: Vec<Vec<T>>) -> Vec<Vec<T>> {
+    #[cfg(grass_verif)]
+    crate::verif::paths_begin();
     choices.into_iter().fold(vec![vec![]], |paths, choice| {
         choice
             .into_iter()
             .flat_map(move |option| {
                 paths.clone().into_iter().map(move |mut path| {
+                    #[cfg(grass_verif)]
+                    crate::verif::paths_tick();
                     path.push(option.clone());
                     path
                 })
